@@ -354,6 +354,7 @@ fx('F5d','internal/graph/graph.go',[("""	score := float64(0)
 			score += -frac * math.Log2(frac)
 		}""")])
 
+apply_mode = len(sys.argv) > 2 and sys.argv[2] == '--apply'
 which=sys.argv[1].split(',')
 out={}
 for name in which:
@@ -363,6 +364,11 @@ for name in which:
             assert old in s,(name,rel,old[:50])
             s=s.replace(old,new,1)
         out[rel]=s
+if apply_mode:
+    for rel,t in out.items():
+        open(R+rel,'w').write(t)
+    print('applied', which, 'to', sorted(out))
+    sys.exit(0)
 ov={}
 d='/tmp/fix/'+'_'.join(which)  # scratch output, outside /repo and /verif
 os.makedirs(d,exist_ok=True)
